@@ -145,6 +145,35 @@ func errPropagates(c *Ctx, r *R, key string, k Call, allowed ...string) bool {
 		r.Bad(key, k.Pos(), "error result of %s is never examined in %s", k.Name(), fname(k.Fn))
 		return false
 	}
+	unconditionalReturn := false
+	for _, ret := range u.Returned {
+		cond := false
+		for _, g := range eng.GuardsAt(ret.Block()) {
+			if ck, _, isCall := eng.RootCall(g.Cond); isCall && (ck.Name() == "errors.Is" || ck.Name() == "errors.As") {
+				cond = true
+			}
+		}
+		if !cond {
+			unconditionalReturn = true
+		}
+	}
+	if len(u.NonNilEdges) == 0 && !unconditionalReturn && !u.Stored {
+		// never compared with nil, returned at most under an errors.Is test: how is it consumed?
+		onlyClassified := len(u.PassedTo) > 0
+		for _, p := range u.PassedTo {
+			if p.Instr == nil {
+				continue
+			}
+			n := p.Name()
+			if n != "errors.Is" && n != "errors.As" {
+				onlyClassified = false
+			}
+		}
+		if onlyClassified {
+			r.Bad(key, k.Pos(), "the error of %s is only classified with errors.Is/As in %s and never tested against nil: every error other than the tested sentinel is silently treated as success", k.Name(), fname(k.Fn))
+			return false
+		}
+	}
 	// handled-sentinel edges: errors.Is(err, S) true edges
 	cut := eng.NewCut()
 	handled := []string{}
